@@ -118,3 +118,11 @@ Example x_late_flight :
      = [(1, 30, 3); (1, 30, 3); (2, 30, 3)]
   /\ reads_ok N.eqb (rinst (rrun (rinit x_s0) x_evs_late)) (rlog (rrun (rinit x_s0) x_evs_late)) = true.
 Proof. vm_compute. repeat split. Qed.
+(* the service re-activates an older version: the same value occurs twice in the install list *)
+Definition x_inst2 : list (name * N) := [(xa, 10); (xa, 11); (xb, 20); (xa, 10)].
+Example x_rollback_ok : reads_ok N.eqb x_inst2 [RD 0 xa 10 1; RD 0 xa 11 2; RD 0 xa 10 4; RD 1 xa 10 0] = true. Proof. reflexivity. Qed.
+(* a handle that keeps returning the WITHDRAWN 11 after the roll-back (install 3) has completed *)
+Example x_rollback_stale : reads_ok N.eqb x_inst2 [RD 0 xa 11 2; RD 0 xa 11 4] = false. Proof. reflexivity. Qed.
+(* back and forth once more than the installs allow *)
+Example x_rollback_too_many : reads_ok N.eqb x_inst2 [RD 0 xa 10 0; RD 0 xa 11 0; RD 0 xa 10 0; RD 0 xa 11 0] = false. Proof. reflexivity. Qed.
+Example x_assign : assign N.eqb x_inst2 [RD 0 xa 10 1; RD 0 xa 11 2; RD 0 xa 10 4; RD 1 xa 10 0] = [0; 1; 3; 0]%nat. Proof. reflexivity. Qed.
